@@ -260,6 +260,7 @@ func c10Run(cs c10Case) []c10Issue {
 	bad := func(class, format string, a ...interface{}) {
 		issues = append(issues, c10Issue{class, fmt.Sprintf("%v : ", cs) + fmt.Sprintf(format, a...), cs})
 	}
+	e3RestoreGlobals() // cases are independent of each other: package-level state starts from the same values
 	w := c10Build(cs)
 	fresh := c10Build(cs) // note: installs its own ledger provider; re-install w's below
 	restful.SetCompressorProvider(w.led)
